@@ -1,7 +1,7 @@
 (** C08 - nodes are content-addressed and deterministically encoded.
     Statements only; proofs are in Persist.v. *)
 From Coq Require Import List NArith ZArith Bool.
-From Mast Require Import Prim Key Tree KeyOrder Codec Store Diff World Erase Build Spec Canon Links Level Inv Hist Persist Events Reload Merkle WorldInv MerkleHist.
+From Mast Require Import Prim Key Tree KeyOrder Codec Store Diff World Erase Build Spec Canon Links Level Inv Hist Persist Events Reload Merkle WorldInv MerkleHist SchedStore.
 Import ListNotations.
 
 (** every Store issued by persisting any tree (any residency mix, either format) is under the name
@@ -46,6 +46,16 @@ Theorem C08_name_vector : name_of tv_node =
   [53;104;82;50;112;76;102;115;78;54;121;101;78;109;71;90;111;67;75;99;117;95;79;115;65;109;100;52;48;117;71;79;74;121;112;111;118;81;114;89;113;67;52]%N.
 Proof. exact name_tv. Qed.
 
+(** the collision-freedom side condition of the history theorems ([nocoll]) is exactly a statement
+    about the hash: in a content-addressed store, with writes under the names of their bytes, it can
+    fail only if two different byte strings among those stored or written have the same name *)
+Theorem C08_nocoll_unless_hash_collision : forall s t,
+  addressed s -> Forall store_named t ->
+  (forall b b', ((exists h, Store.lookup s h = Some b) \/ (exists h, In (EStore h b) t)) ->
+                (exists h, In (EStore h b') t) -> name_of b = name_of b' -> b = b') ->
+  nocoll s t.
+Proof. exact nocoll_unless_hash_collision. Qed.
+
 (** PARTIAL: "same root name => same contents" needs collision freeness of BLAKE2b-256, which is a
     stated hypothesis and not provable. *)
 Print Assumptions C08_store_events_named.
@@ -56,3 +66,4 @@ Print Assumptions C08_merkle_name_ignores_residency.
 Print Assumptions C08_bytes_function_of_contents.
 Print Assumptions C08_name_keeps_bytes.
 Print Assumptions C08_name_vector.
+Print Assumptions C08_nocoll_unless_hash_collision.
